@@ -26,6 +26,13 @@ VENV_PY = "/venv/bin/python"
 UNITS = {}
 
 
+def oid_match(oid, pattern):
+    """known-finding patterns: literal text with `*` as the only wildcard (ids contain brackets)"""
+    import re
+    rx = ".*".join(re.escape(part) for part in pattern.split("*"))
+    return re.fullmatch(rx, oid) is not None
+
+
 def unit(prop, name, functions=(), tier="quick", engine=""):
     def deco(fn):
         UNITS.setdefault(prop, []).append(
@@ -84,7 +91,7 @@ class Ctx:
             m = res["model"]
             rec["model"] = _model_str(m)
             # known finding with a blocking clause?
-            kfs = [k for k in self.known if fnmatch.fnmatch(oid, k["obligation"])
+            kfs = [k for k in self.known if oid_match(oid, k["obligation"])
                    and k.get("status") == "known"]
             matched = None
             if kfs and blockers:
@@ -130,7 +137,7 @@ class Ctx:
                "backend": backend, "seconds": 0.0, "lineno": None, "note": note, "known": None,
                "replay": None, "model": witness}
         if not ok:
-            kfs = [k for k in self.known if fnmatch.fnmatch(oid, k["obligation"])
+            kfs = [k for k in self.known if oid_match(oid, k["obligation"])
                    and k.get("status") == "known" and not k.get("block")]
             if kfs:
                 rec["verdict"] = "known-finding"
@@ -151,7 +158,7 @@ class Ctx:
         rec = {"id": oid, "kind": "bounded", "ok": ok, "scope": scope, "cases": cases,
                "witness": witness, "note": note, "known": None, "replay": replay}
         if not ok:
-            kfs = [k for k in self.known if fnmatch.fnmatch(oid, k["obligation"])
+            kfs = [k for k in self.known if oid_match(oid, k["obligation"])
                    and k.get("status") == "known"]
             if kfs:
                 rec["known"] = [k["what"] for k in kfs]
